@@ -363,7 +363,7 @@ def run(ck):
                 errs = {"exponent": note("da.exp(fit)", r[2], ex), "pore_volume": note("da.V0(fit)", r[0], V0), "potential": note("da.E(fit)", r[1], E)}
                 bad = {kk: v for kk, v in errs.items() if v > 2e-3}
                 if bad:
-                    ck.fail_case({"method": "DA", "clause": "exponent search does not recover the generating exponent", "ends_at_upper_bound": bool(r[2] > 2.999) and ex < 1.45},
+                    ck.fail_case({"method": "DA", "clause": "exponent search does not recover the generating exponent", "ends_at_upper_bound": bool(r[2] > 2.999) and ex < 2.9},
                                  {"V0": V0, "E": E, "exp": ex, "T": T, "pressure": pd_.tolist(), "result": [float(x) for x in r[:3]], "rel_errors": bad})
         except CalculationError as e:
             ck.fail_case({"method": "DA", "clause": "exact DA data refused"}, {"V0": V0, "E": E, "exp": ex, "error": str(e)[:200]})
